@@ -54,9 +54,12 @@ TIgnored == [k |-> "ignored"]      \* serde::de::IgnoredAny: every well-formed v
 
 \* ---- Accepts ----
 KeyBytes(s) == s     \* a key made of ASCII digits / sign: its code points are its bytes
+\* an integer target and the literal -0 (which Numbers leaves "open"): serde reads it as the float -0.0 for the widths up to 64 bits
+\* (rejected by an integer target) and as the integer 0 for i128 (its digits are scanned as text); u128 rejects the sign
+IntOk(bits, signed, lit) == LET a == IntAccepts(bits, signed, lit) IN IF a = "open" THEN bits = 128 /\ signed ELSE a = "yes"
 KeyAccepts(kd, s) ==
   CASE kd.k = "string" -> TRUE
-    [] kd.k = "int"    -> IsNumberLit(KeyBytes(s)) /\ IntAccepts(kd.bits, kd.signed, KeyBytes(s)) = "yes"
+    [] kd.k = "int"    -> IsNumberLit(KeyBytes(s)) /\ IntOk(kd.bits, kd.signed, KeyBytes(s))
     [] kd.k = "bool"   -> s \in {N.true, N.false}
     [] kd.k = "char"   -> Len(s) = 1
     [] kd.k = "unitenum" -> \E i \in 1..Len(kd.vs) : kd.vs[i] = s
@@ -75,7 +78,7 @@ StructFromSeq(d, v) ==
 Accepts(d, v) ==
   CASE d.k = "bool"   -> v.t = "bool"
     [] d.k = "ignored" -> TRUE
-    [] d.k = "int"    -> v.t = "num" /\ IntAccepts(d.bits, d.signed, v.lit) = "yes"
+    [] d.k = "int"    -> v.t = "num" /\ IntOk(d.bits, d.signed, v.lit)
     [] d.k = "f64"    -> v.t = "num" /\ LitIsFinite(v.lit)
     [] d.k = "char"   -> v.t = "str" /\ Len(v.s) = 1
     [] d.k = "string" -> v.t = "str"
